@@ -358,6 +358,25 @@ def clause_e(ctx: Context, idx) -> None:
                           f"{f.name}: the new {what} is computed as {mo.fmt(got)}, but a' = P a + A a^dagger gives {mo.fmt(want)}: the "
                           f"Gaussian simulator's effect is not the congruence by the gate's symplectic matrix", norm(expr_ast)[:120])
 
+    # every update is executed on every path: no `return` (e.g. a "nothing to do" shortcut that looks at one of the two moment
+    # matrices only) may bypass the assign(...) statements of a moment-update function
+    from .. import cfg as cfgmod
+    for fname in ("_apply_linear_to_C_and_G", "_apply_passive_linear_to_C_and_G", "_apply_linear_to_auxiliary_modes",
+                  "_apply_passive_linear_to_auxiliary_modes", "_apply_linear", "_apply_passive_linear"):
+        f_ = fn(fname)
+        g_ = cfgmod.build(f_.node)
+        updates = [n_ for n_ in g_.nodes if n_.kind == "stmt" and isinstance(n_.stmt, ast.Assign) and isinstance(n_.stmt.targets[0], ast.Attribute)
+                   and n_.stmt.targets[0].attr in ("_C", "_G", "_m")]
+        for u_ in updates:
+            # is EXIT reachable from ENTRY without passing this update?
+            r_ = g_.reach([cfgmod.ENTRY], blocked=lambda n_, u_=u_: n_.id == u_.id, follow=lambda lab: lab != "exc")
+            ok_ = cfgmod.EXIT not in r_
+            key_ = f"{f_.qualname}|update of {u_.stmt.targets[0].attr} at every exit|{norm(u_.stmt.targets[0])}"
+            ctx.obligation("C07e", key_, ok_, f"{ctx.relpath(f_.file)}:{u_.line}")
+            if not ok_:
+                ctx.violation("C07e", key_, f_.file, u_.line,
+                              f"{fname} can return without executing `{norm(u_.stmt)[:70]}`: on that path the moment `{u_.stmt.targets[0].attr}` keeps its old value, "
+                              f"so the state is not the congruence of the previous one by the gate's symplectic matrix", norm(u_.stmt)[:100])
     P, A, C, G, m = mo.sym("P"), mo.sym("A"), mo.sym("C"), mo.sym("G"), mo.sym("m")
     # ---- active gates: diagonal blocks -------------------------------------------------------------------------
     f = fn("_apply_linear_to_C_and_G")
